@@ -1,63 +1,130 @@
-/* C04 (sequence part) / C17 (C level): shared predicates, ghosts and assumed libc contracts for the
+/* C04 (sequence part) / C17 (C level): shared predicates, ghosts and the assumed allocator model for the
  * resizable-sequence units (array.c, buffer.c, capi.c index decoding).
  *
  * Representation invariants (derived from the constructors janet_array/janet_array_n/janet_buffer_init_impl/
  * janet_pointer_buffer_unsafe, array/trim, buffer/trim and every mutator below, which re-establish them):
- *   wf_array : 0 <= count <= capacity, and capacity > 0 ==> data is a heap block of capacity Janets;
+ *   wf_array : 0 <= count <= capacity; capacity > 0 ==> data is a heap block of capacity Janets;
  *              capacity == 0 ==> data == NULL (janet_array(0), array/trim of an empty array)
- *   wf_buffer: 0 <= count <= capacity, capacity >= 1, data is a block of capacity bytes
+ *   wf_buffer: 0 <= count <= capacity, capacity >= 1, data is a heap block of capacity bytes
  *              (every constructor allocates >= 4 bytes; buffer/trim keeps >= 4)
+ * Input objects are built by the harness (mk_array / mk_buffer: ANY object satisfying the invariant, all sizes
+ * up to INT32_MAX) with a typed malloc - CBMC then addresses the block element-wise, which is what makes the
+ * unbounded ghost-index proofs cheap (probed: 0.6 s instead of 40 s for is_fresh byte blocks).
  * The element type is the 8-byte nanboxed Janet; elements are compared through .u64 (bit identity). */
 #ifndef VC_SEQ_COMMON_H
 #define VC_SEQ_COMMON_H
 #include "prelude.h"
+#include <stdlib.h>
 
 #define SEQ_NULL ((void *)0)
-#define JSZ ((size_t)8)                      /* sizeof(Janet), checked by seq_static_checks */
+#define JSZ ((size_t)8)
 typedef char seq_static_check_janet_is_8[sizeof(Janet) == 8 ? 1 : -1];
+#define NIL_BITS 0xFFF8800000000001ULL      /* janet_wrap_nil().u64; asserted by SEQ_CHECK_NIL() in the harnesses that use it */
+#define SEQ_CHECK_NIL() __CPROVER_assert(janet_wrap_nil().u64 == NIL_BITS, "nil bit pattern used in the contracts")
 
-/* requires-side (is_fresh) and ensures-side (rw_ok; the block may be the one seen at entry) forms */
 #define WF_ARRAY_NUM(a) ((a)->count >= 0 && (a)->count <= (a)->capacity)
-#define WF_ARRAY_REQ(a) (WF_ARRAY_NUM(a) && \
-    (((a)->capacity == 0 && (a)->data == SEQ_NULL) || \
-     ((a)->capacity > 0 && __CPROVER_is_fresh((a)->data, (size_t)(a)->capacity * JSZ))))
-#define WF_ARRAY_ENS(a) (WF_ARRAY_NUM(a) && \
+#define WF_ARRAY(a) (WF_ARRAY_NUM(a) && \
     (((a)->capacity == 0 && (a)->data == SEQ_NULL) || \
      ((a)->capacity > 0 && __CPROVER_rw_ok((a)->data, (size_t)(a)->capacity * JSZ))))
+#define A_ELEM(a, i) ((a)->data[i].u64)
 
 #define WF_BUFFER_NUM(b) ((b)->count >= 0 && (b)->count <= (b)->capacity && (b)->capacity >= 1)
-#define WF_BUFFER_REQ(b) (WF_BUFFER_NUM(b) && __CPROVER_is_fresh((b)->data, (size_t)(b)->capacity))
-#define WF_BUFFER_ENS(b) (WF_BUFFER_NUM(b) && __CPROVER_rw_ok((b)->data, (size_t)(b)->capacity))
+#define WF_BUFFER(b) (WF_BUFFER_NUM(b) && __CPROVER_rw_ok((b)->data, (size_t)(b)->capacity))
 
-/* ghost element: index g_idx (unconstrained by the harness => universally quantified, rule R2) and the value
- * g_val / g_byte the sequence holds there at entry (fixed by a requires of the function under proof) */
+/* ghost element: index g_idx (left unconstrained by the harness => universally quantified, rule R2) and the value
+ * g_val / g_byte the sequence holds there at entry (fixed by a requires of the function under proof);
+ * g_oldcount/g_oldcap: pre-state scalars (fixed by requires) */
 int32_t g_idx;
 uint64_t g_val;
 uint8_t g_byte;
-/* ghosts for pre-state scalars (rule: __CPROVER_old only on plain scalars; these are used where the old value
- * is needed inside a callee contract) */
 int32_t g_oldcount, g_oldcap;
 
-/* ---- assumed libc contracts (rule R10) --------------------------------------------------------------------
- * realloc: p is NULL or a freeable heap block; result NULL or a fresh block of n bytes; the old block may have
- * been freed. Content: the 8-byte element at ghost index g_idx (resp. the byte at g_idx) that the CALLER can
- * show to be readable in the old block with value g_val (resp. g_byte) is in the new block if it fits. The
- * caller-side facts are REQUIRES of the contract, i.e. proved at the call site, not assumed. */
-int g_re_elem;   /* 1: the unit tracks the ghost Janet element through realloc; 2: ghost byte; 0: nothing */
-void *realloc_c(void *p, size_t n)
-__CPROVER_requires(p == SEQ_NULL || __CPROVER_is_freeable(p))
-__CPROVER_requires((g_re_elem == 1 && p != SEQ_NULL) ==> (g_idx >= 0 && __CPROVER_r_ok(p, ((size_t)g_idx + 1) * JSZ) && ((uint64_t *)p)[g_idx] == g_val))
-__CPROVER_requires((g_re_elem == 2 && p != SEQ_NULL) ==> (g_idx >= 0 && __CPROVER_r_ok(p, (size_t)g_idx + 1) && ((uint8_t *)p)[g_idx] == g_byte))
-__CPROVER_assigns()
-__CPROVER_frees(p)
-__CPROVER_ensures(__CPROVER_return_value == SEQ_NULL || __CPROVER_is_fresh(__CPROVER_return_value, n))
-__CPROVER_ensures((g_re_elem == 1 && g_idx >= 0 && p != SEQ_NULL && __CPROVER_return_value != SEQ_NULL && ((size_t)g_idx + 1) * JSZ <= n) ==>
-                  ((uint64_t *)__CPROVER_return_value)[g_idx] == g_val)
-__CPROVER_ensures((g_re_elem == 2 && g_idx >= 0 && p != SEQ_NULL && __CPROVER_return_value != SEQ_NULL && (size_t)g_idx + 1 <= n) ==>
-                  ((uint8_t *)__CPROVER_return_value)[g_idx] == g_byte)
-;
+/* ---- assumed allocator model (rule R10) -------------------------------------------------------------------
+ * realloc(p, n): p must be NULL or a live heap block (checked by free's own preconditions); may fail (NULL, old
+ * block untouched); otherwise returns a NEW block of n bytes, frees the old one, and the new block holds the
+ * old content at the ghost index g_idx if that element lies inside both blocks. All other content of the new
+ * block is arbitrary - so only facts about the ghost element can be proved, which is all the contracts state. */
+#ifdef SEQ_ELEM_BYTES
+typedef uint8_t seq_elem_t;
+#else
+typedef Janet seq_elem_t;
+#endif
+void *realloc(void *p, size_t n) {
+  size_t k = n / sizeof(seq_elem_t);
+  __CPROVER_assert(k * sizeof(seq_elem_t) == n, "realloc model: size is a multiple of the element size");
+  if (nd_int()) return SEQ_NULL;
+  seq_elem_t *q = malloc(k * sizeof(seq_elem_t));
+  if (q == SEQ_NULL) return SEQ_NULL;
+  if (p != SEQ_NULL) {
+    if (g_idx >= 0 && ((size_t)g_idx + 1) * sizeof(seq_elem_t) <= __CPROVER_OBJECT_SIZE(p) && (size_t)g_idx < k)
+      q[g_idx] = ((seq_elem_t *)p)[g_idx];
+    free(p);
+  }
+  return q;
+}
 
-/* memcpy / memmove / memset: safety contract (every call site must show both ranges valid; memcpy additionally
- * that they do not overlap) + the ghost element: the destination element at ghost offset g_mm (in units of
- * g_mm_sz bytes, 8 or 1) receives the source element that was there BEFORE the call. */
+/* any well-formed array, any size */
+static JanetArray *mk_array(void) {
+  JanetArray *a = malloc(sizeof(JanetArray));
+  __CPROVER_assume(a != SEQ_NULL);
+  __CPROVER_assume(WF_ARRAY_NUM(a));
+  if (a->capacity > 0) {
+    a->data = malloc((size_t)a->capacity * sizeof(Janet));
+    __CPROVER_assume(a->data != SEQ_NULL);
+  } else {
+    a->data = SEQ_NULL;
+  }
+  return a;
+}
+/* any well-formed buffer, any size */
+static JanetBuffer *mk_buffer(void) {
+  JanetBuffer *b = malloc(sizeof(JanetBuffer));
+  __CPROVER_assume(b != SEQ_NULL);
+  __CPROVER_assume(WF_BUFFER_NUM(b));
+  b->data = malloc((size_t)b->capacity * sizeof(uint8_t));
+  __CPROVER_assume(b->data != SEQ_NULL);
+  return b;
+}
+
+/* ---- assumed bulk-copy models (rule R10) ------------------------------------------------------------------
+ * memcpy/memmove/memset of symbolic size: the call site must show both ranges valid for n bytes (memcpy: and
+ * disjoint) - these are counted obligations ("memcpy model: ..."). Effect: the destination range becomes arbitrary
+ * except the element at ghost offset g_mm (unconstrained => any offset), which receives the value the source had
+ * there BEFORE the call (memset: the fill byte). n == 0 is a no-op with no requirement on the pointers other than
+ * what ISO C says the callers here rely on (safe_memcpy / guards skip the call). */
+size_t g_mm;
+static void seq_copy_model(void *d, const void *s, size_t n) {
+  size_t k = n / sizeof(seq_elem_t);
+  __CPROVER_assert(k * sizeof(seq_elem_t) == n, "copy model: size is a multiple of the element size");
+  if (g_mm < k) {
+    seq_elem_t v = ((const seq_elem_t *)s)[g_mm];
+    __CPROVER_havoc_slice(d, n);
+    ((seq_elem_t *)d)[g_mm] = v;
+  } else {
+    __CPROVER_havoc_slice(d, n);
+  }
+}
+void *memmove(void *d, const void *s, size_t n) {
+  __CPROVER_assert(__CPROVER_r_ok(s, n), "memmove model: source range readable");
+  __CPROVER_assert(__CPROVER_w_ok(d, n), "memmove model: destination range writable");
+  if (n > 0) seq_copy_model(d, s, n);
+  return d;
+}
+void *memcpy(void *d, const void *s, size_t n) {
+  __CPROVER_assert(__CPROVER_r_ok(s, n), "memcpy model: source range readable");
+  __CPROVER_assert(__CPROVER_w_ok(d, n), "memcpy model: destination range writable");
+  __CPROVER_assert(n == 0 || !__CPROVER_same_object(d, s) ||
+                   __CPROVER_POINTER_OFFSET(d) + n <= __CPROVER_POINTER_OFFSET(s) ||
+                   __CPROVER_POINTER_OFFSET(s) + n <= __CPROVER_POINTER_OFFSET(d), "memcpy model: ranges do not overlap");
+  if (n > 0) seq_copy_model(d, s, n);
+  return d;
+}
+void *memset(void *d, int c, size_t n) {
+  __CPROVER_assert(__CPROVER_w_ok(d, n), "memset model: destination range writable");
+  if (n > 0) {
+    __CPROVER_havoc_slice(d, n);
+    if (g_mm < n) ((uint8_t *)d)[g_mm] = (uint8_t)c;
+  }
+  return d;
+}
 #endif
